@@ -352,7 +352,7 @@ def check_globals(ctx, num=4):
     # the container counter flows only into container_id
     ci = P.fn(CT, "Container.__init__")
     reads = [n for n in own_nodes(ci.node) if isinstance(n, ast.Attribute) and n.attr == "next_container_num" and isinstance(n.ctx, ast.Load)]
-    others = [(f, n) for f in _funcs(P) for n in own_nodes(f.node) if isinstance(n, ast.Attribute) and n.attr == "next_container_num" and f.node is not ci.node]
+    others = [(f, n) for f in _funcs(P) for n in own_nodes(f.node) if isinstance(n, ast.Attribute) and n.attr == "next_container_num" and not same_fn(f, ci)]
     okr = all(isinstance(parent(parent(r)), ast.JoinedStr) or isinstance(parent(r), (ast.AugAssign,)) for r in reads)
     ctx.ob(num, "K11", "the process-global container counter is read only to form container ids", okr and not others, ci, reads[0] if reads else ci.node, construct="uses of next_container_num",
            detail=f"{len(reads)} read(s) in Container.__init__; reads elsewhere: {[f.qual for f, _ in others]}")
